@@ -2,6 +2,7 @@ package checks
 
 import (
 	"bytes"
+	"context"
 	"fmt"
 	"net/http"
 	"strings"
@@ -32,6 +33,10 @@ const (
 )
 
 func runC07(x *mc.X) {
+	if m := mc.Pick(x, "mode", []string{"product", "origin on a high port", "field value with commas", "caller's context ends as the reply arrives"}); m != "product" {
+		runC07Special(x, m)
+		return
+	}
 	method := mc.Pick(x, "method", c07Methods)
 	status := mc.Pick(x, "status", c07Statuses)
 	target := mc.Pick(x, "target-spelling", c07Targets)
@@ -211,4 +216,58 @@ func methodClass(m string) string {
 		return m
 	}
 	return "other(" + m + ")"
+}
+
+// runC07Special: three situations outside the product — an origin whose port is above 32767, a Location / Content-Location
+// value that contains commas (these fields hold one URI, not a list), and a caller whose context ends in the very moment
+// the origin's 2xx arrives (the response is still handed to the caller, so the request succeeded).
+func runC07Special(x *mc.X, mode string) {
+	method := mc.Pick(x, "method", []string{"POST", "DELETE", "PUT", "FOO"})
+	field := mc.Pick(x, "field", []string{"Location", "Content-Location"})
+	base := "http://example.com"
+	if mode == "origin on a high port" {
+		base = mc.Pick(x, "origin", []string{"http://example.com:49152", "http://example.com:65535", "http://example.com:32768", "https://example.com:40443"})
+	}
+	target, other := base+"/a/r", base+"/a/sib"
+	locs := []string{other, "/a/sib", "sib"}
+	if mode == "field value with commas" {
+		other = base + "/reports/2024,Q3?ids=1,2"
+		locs = []string{other, "/reports/2024,Q3?ids=1,2"}
+	}
+	loc := mc.Pick(x, "field-value", locs)
+	w := world.New(world.Opt{})
+	defer w.Close()
+	answer(w, RS{Status: 200, H: H("Cache-Control", "max-age=100000")})
+	o1, o2 := get(w, target), get(w, other)
+	logObs(x, "GET "+target, o1)
+	logObs(x, "GET "+other, o2)
+	world.Advance(secs(5))
+	ctx, cancel := context.WithCancel(context.Background())
+	defer cancel()
+	answerFn(w, func(o *world.Origin, c *world.Call) (*http.Response, error) {
+		resp := o.Respond(c, RS{Status: 200, H: H(field, loc), Body: []byte{}})
+		if mode == "caller's context ends as the reply arrives" {
+			cancel()
+		}
+		return resp, nil
+	})
+	req, _ := http.NewRequest(method, target, nil)
+	ou := w.Do(req.WithContext(ctx))
+	logObs(x, fmt.Sprintf("%s %s (origin: 200 %s: %s)", method, target, field, loc), ou)
+	x.Nontrivial(mode + "/" + methodClass(method))
+	x.State(mode, method, field, loc, obsClass(ou))
+	if ou.Panic != nil || ou.Err != nil || ou.Status != 200 {
+		return // the caller did not receive a 2xx: nothing is demanded
+	}
+	world.Advance(secs(1))
+	answer(w, RS{Status: 200, H: H("Cache-Control", "no-store")})
+	for _, e := range []struct {
+		url, tok, what string
+	}{{target, o1.Tok, "target"}, {other, o2.Tok, "same-origin " + field + " URI"}} {
+		o := get(w, e.url)
+		logObs(x, "follow-up GET "+e.url, o)
+		if o.Err == nil && o.Panic == nil && o.Tok == e.tok && len(o.Calls) == 0 {
+			x.Failf(fmt.Sprintf("not invalidated: %s method=%s (%s)", e.what, methodClass(method), mode), "after %s %s -> 200 %s: %s, GET %s is still answered from the store without validation: %s", method, target, field, loc, e.url, o)
+		}
+	}
 }
